@@ -116,7 +116,7 @@ func ruleR5(p *Prog) []Ob {
 					continue
 				}
 				nUsers++
-				ob := Ob{Rule: "R5", Inst: "b:release:" + funcLabel(fn), Props: props, Pos: p.at(c), Func: funcLabel(fn), Nontrivial: true}
+				ob := Ob{Rule: "R5", Inst: "b:release:" + funcLabel(fn), Props: append(append([]string{}, props...), "C19"), Pos: p.at(c), Func: funcLabel(fn), Nontrivial: true}
 				var rdr ssa.Value
 				for _, rf := range *c.Referrers() {
 					if ex, ok := rf.(*ssa.Extract); ok && ex.Index == 0 {
@@ -539,7 +539,7 @@ func ruleR20(p *Prog) []Ob {
 			}
 		}
 	}
-	obU := Ob{Rule: "R20", Inst: "u:users-under-list-lock", Props: props, Pos: "-", Nontrivial: true}
+	obU := Ob{Rule: "R20", Inst: "u:users-under-list-lock", Props: append(append([]string{}, props...), "C03", "C04", "C09", "C10"), Pos: "-", Nontrivial: true}
 	sort.Strings(badU)
 	switch {
 	case nU == 0:
